@@ -254,6 +254,19 @@ def hmac_hist(rng, keylens, maxmsg=300):
     return h
 
 
+def hmac_edges(rng):
+    """every branch of the key normalisation of `hmac` (empty key: copy skipped; shorter than the block: copied + zero tail;
+    exactly one block: copied, no zero fill; longer: digest + zero upper half) x the padding classes of the inner message"""
+    hs = []
+    for kl in (0, 1, 31, 32, 33, 55, 56, 63, 64, 65, 96, 127, 128, 129, 200):
+        h = []
+        for ml in (0, 1, 55, 56, 63, 64, 65, 119, 120):
+            h.append(f"hmac {hx(rbytes(rng, kl))} {hx(rbytes(rng, ml))}")
+        h.append(f"spechmac {hx(rbytes(rng, kl))} {hx(rbytes(rng, rng.randrange(100)))}")
+        hs.append(h)
+    return hs
+
+
 # NIST CAVP / FIPS 180-4 examples and RFC 4231 test cases: expected values are recomputed by hashlib;
 # they are listed so that the classic vectors are part of every run
 VECTORS = [
@@ -305,16 +318,39 @@ def count_histories(rng, n=40):
     count; beyond 2^61 bytes the oracle wraps the bit count like the code); the hasher is then reused for a hashlib-checked digest"""
     hs = []
     bases = [2 ** 32 - 64, 2 ** 32, 2 ** 32 + 64, 2 ** 29 - 64, 2 ** 29, 2 ** 35, 2 ** 40 + 2 ** 33, 2 ** 48, 2 ** 56, 2 ** 56 - 64,
-             2 ** 61 - 128, 2 ** 61 - 64, 2 ** 61, 2 ** 63, 2 ** 64 - 64]
+             2 ** 61 - 128, 2 ** 61 - 64, 2 ** 61, 2 ** 63, 2 ** 64 - 64, 2 ** 64 - 64, 2 ** 64 - 128]
     for _ in range(n):
         c = rng.choice(bases) if rng.random() < 0.7 else 64 * rng.randrange(2 ** 58)
         h = [f"setcount {c}"]
+        if c >= 2 ** 64 - 128 and rng.random() < 0.8:      # the 64-bit byte counter itself wraps past 2^64 in this history
+            h.append(f"update {hx(rbytes(rng, rng.choice([64, 65, 119, 120, 128, rng.randrange(64, 300)])))}")
         for _ in range(rng.randrange(0, 4)):
             h.append(f"update {hx(rbytes(rng, rng.choice([0, 1, 55, 56, 63, 64, 65, rng.randrange(200)])))}")
         m = rbytes(rng, rng.randrange(100))
         h += ["final", f"update {hx(m)}", "final"]
         hs.append(h)
     return hs
+
+
+def count_hits(hs):
+    """input classes reached by the white-box stream (measured on the op lines)"""
+    b = {"digest of a message below 2^61 bytes (FIPS range)": 0, "bit length wraps (2^61 <= bytes < 2^64)": 0,
+         "byte counter wraps (>= 2^64 bytes)": 0, "(UInt32) cast of count drops set upper bits": 0}
+    for h in hs:
+        n = None
+        for line in h:
+            t = line.split()
+            if t[0] == "setcount":
+                n = int(t[1])
+            elif t[0] == "update" and n is not None:
+                n += 0 if t[1] == "-" else len(t[1]) // 2
+            elif t[0] == "final" and n is not None:
+                b["digest of a message below 2^61 bytes (FIPS range)" if n < 2 ** 61 else
+                  "bit length wraps (2^61 <= bytes < 2^64)" if n < 2 ** 64 else "byte counter wraps (>= 2^64 bytes)"] += 1
+                if n >= 2 ** 32:
+                    b["(UInt32) cast of count drops set upper bits"] += 1
+                n = None
+    return b
 
 
 def copy_histories(rng, n):
@@ -392,7 +428,7 @@ def histories_for(ctx):
         keylens = sorted({0, 1, 31, 32, 33, 63, 64, 65, 66, 96, 128, 199, 200} | {k for k in range(201) if (k + ctx.seed) % 3 == 0})
     else:
         keylens = list(range(201)) * 20
-    hm = [hmac_hist(rng, keylens[i:i + 8]) for i in range(0, len(keylens), 8)]
+    hm = [hmac_hist(rng, keylens[i:i + 8]) for i in range(0, len(keylens), 8)] + hmac_edges(rng)
     nsplits = sum(n + 1 for n in lens) * contents
     nsplits3 = sum((n + 1) * (n + 2) // 2 for n in lens3)
     ctx.cov["rule"] = (
@@ -400,7 +436,7 @@ def histories_for(ctx):
         f"update(m[:s]);update(m[s:]);finalize on one reused hasher ({len(lens)} lengths x {contents} contents, {nsplits} splits) + 3-way: ALL splits a<=b of one "
         f"random message for each of {len(lens3)} lengths in 0..70 ({nsplits3} splits) + {len(three)} histories of 12 "
         f"sampled 3-way splits (lengths 0..300, boundary lengths favoured, interleaved reset()/finalize()/hash/spec) + {len(longs)} long messages "
-        f"(301..70000 bytes, chunk sizes 1..{MAXLINE}) + hmac for {len(keylens)} keys (lengths {min(keylens)}..{max(keylens)}) with messages 0..300; content random/all-00/all-ff/all-80; "
+        f"(301..70000 bytes, chunk sizes 1..{MAXLINE}) + hmac for {len(keylens)} keys (lengths {min(keylens)}..{max(keylens)}) with messages 0..300 + key lengths 0,1,31..33,55,56,63..65,96,127..129,200 x message lengths 0,1,55,56,63..65,119,120; content random/all-00/all-ff/all-80; "
         "every digest of the real code is compared with the Lean model AND with Python hashlib/hmac; `spec`/`spechmac` lines compare the Lean FIPS/RFC spec with both; "
         "distinct_nontrivial = distinct (op-kind set, final digest) of histories")
     full = not quick
@@ -521,6 +557,7 @@ def check(ctx):
                 ctx.broken.append("check machinery: py_sha256 disagrees with hashlib")
         ch = count_histories(ctx.rng, 40 if ctx.tier == "quick" else 2000)
         ops["setcount"] = len(ch)
+        ctx.cov["branch_hits_count_width"] = count_hits(ch)
         cd = C.differential(ctx, harness, C.driver_path(DRIVER), ch, reference, C.default_eq, nontrivial=nontrivial)
         ctx.log(f"count-width stream (white box): {len(ch)} histories, {len(cd)} disagreement(s)")
         report(ctx, cd, harness, C.driver_path(DRIVER), "sha-count-width")
